@@ -338,7 +338,15 @@ def reader_alts(ctx, version):
     g = G.grammar_of(m, 'zincparser')
     sc = g.get('hs_scalar_%s' % version.replace('.', '_'))
     nts = nonterminals(g)
-    kind, alts = G.alternatives(sc)
+    kind, alts0 = G.alternatives(sc)
+    # flatten action-free nested alternations (hs_number = quantity | decimal | INF..)
+    alts = []
+    for a in alts0:
+        n = a
+        if n.kind in ('Or', 'MatchFirst') and n.action is None:
+            alts.extend(n.children)
+        else:
+            alts.append(a)
     out = []
     for i, a in enumerate(alts):
         tr = G.ToRx(nts)
@@ -433,6 +441,8 @@ def spec_inclusion(ctx, rule, version, templates):
         if t is None:
             continue
         sk = SPEC_KIND[kind]
+        if sk == 'bin' and version == '3.0':
+            sk = 'bin3'
         node = info['node']
         if sk not in legal:
             ctx.violation(rule, '%s::dump_scalar[%s]' % (FZ, kind), 'version %s' % version,
@@ -475,3 +485,35 @@ def raw_positions(ctx, rule, templates, version):
             ctx.ob(rule, 'v%s: every text payload of %s passes through an escape pipeline (%s)' % (
                 version, kind, ', '.join(t.notes) or 'no text payload'), True,
                 '%s:%s' % (FZ, node.lineno if node is not None else '?'))
+
+
+# ------------------------------------------------------------------ structure
+
+def grid_template(ctx, rule, version):
+    """Template of zincdumper.dump_grid over code points and the nonterminal ⟨value⟩."""
+    m = ctx.model
+    interp = TP.Interp(m, 'zincdumper', 'zinc')
+    interp.version = version
+    try:
+        res = interp.invoke('zincdumper', 'dump_grid', [('obj', 'Grid')], {}, None)
+    except (Unsupported, AnalysisError) as e:
+        ctx.error(rule, 'template of dump_grid: %s' % e)
+        return None
+    if res[0] != 'str':
+        ctx.error(rule, 'dump_grid does not return a string template: %r' % (res[0],))
+        return None
+    return res[1]
+
+
+def reader_grid_rx(ctx, version):
+    g = G.grammar_of(ctx.model, 'zincparser')
+    gr = g.get('hs_grid_%s' % version.replace('.', '_'))
+    sc = g.get('hs_scalar_%s' % version.replace('.', '_'))
+    nts = {sc.id: S.SYM_S}
+    if gr.content is None:
+        raise Unsupported('hs_grid forward not assigned')
+    return G.ToRx(nts).rx(gr.content), g
+
+
+def spec_grid_rx():
+    return L.rcat(S.zinc('structure', 'header'), S.zinc('structure', 'cols'), L.rstar(S.zinc('structure', 'row')))
